@@ -439,7 +439,10 @@ class Gen:
         return "T_" + name
 
 
-def translate(repo):
+def parse_repo(repo):
+    """-> (items, csv_table): the parsed derive(Deserialize) types of the three files (dicts as built by
+    parse_items) and the (lowercase literal, variant) table of ChallengeEventRule::from_str.  Also checks the two
+    custom deserialisers against the modelled bodies.  Raises Unsupported."""
     items, fns, impls = {}, {}, {}
     for fn in FILES:
         path = os.path.join(repo, "lichess_api", "src", "api", fn)
@@ -460,6 +463,11 @@ def translate(repo):
     table = csv_rule_table(impls, items["ChallengeEventRule"])
     for extra in set(impls) - {"impl FromStr for ChallengeEventRule"}:
         die(extra, "unexpected impl block")
+    return items, table
+
+
+def translate(repo):
+    items, table = parse_repo(repo)
     g = Gen(items, table)
     roots = []
     for rust, coq in ROOTS:
